@@ -389,6 +389,18 @@ static void ownership_pass(void)
         own_begin("VSS codec"); d_vss_body(t); w_vss_pathlen(buf_of(t)); { uint8_t o[8]; w_vss_get_path(buf_of(t), (uint64_t)(t == 1), buf_of(t) + 3500, o); } own_end();
         own_begin_ro("VSS decoding of a message", g_arena, 256); g_mode = MODE_OFF; d_vss_shared_setup(); g_mode = MODE_OWN; d_vss_shared_body(t); own_end();
         own_begin("VSS string arrays"); d_sa_body(t); own_end();
+        /* queries and decoders on inputs that are cut off (a length prefix that announces more than is there, an array that ends
+         * inside a prefix): the input was passed for reading, nothing may be stored into it */
+        { uint8_t* a = buf_of(t) + 2048; uint8_t* dest = buf_of(t) + 2300; uint8_t* offs = buf_of(t) + 2600; uint8_t* ol = buf_of(t) + 2700;
+          static const uint8_t cut[3][8] = { {0, 2, 'a', 'b', 0, 9, 'c', 'd'}, {0, 1, 'x', 0, 0, 0, 0, 0}, {0xFF, 0xFF, 'q', 'r', 's', 't', 'u', 'v'} };
+          static const int cutlen[3] = {8, 4, 8};
+          for (int k = 0; k < 3; k++) {
+              g_mode = MODE_OFF; memcpy(a, cut[k], 8); for (int i = 0; i < 3; i++) { offs[4 * i] = 0; offs[4 * i + 1] = 0; offs[4 * i + 2] = 0; offs[4 * i + 3] = (uint8_t)(32 * i); }
+              own_begin_ro("string-array count/decode of a cut-off array", a, 16);
+              (void)w_sa_count(a, (uint64_t)cutlen[k]);
+              if (k < 2) w_sa_unpack(a, (uint64_t)cutlen[k], 2, dest, offs, ol);      /* (an announced length of 65535 would legitimately run off this small arena) */
+              own_end();
+          } }
     }
     for (int t = 0; t < MAXT; t++) g_res[t].n = 0;
     g_cnt.transitions += g_own_checked;
